@@ -583,7 +583,24 @@ func c09DcrHistories(ctx *RunCtx, s *c09Scan) {
 				if r.Intn(6) == 0 {
 					d.hookErr = errors.New("metadata hook failed: " + plantedFailureSecret)
 				}
-				code, m := d.do("PUT", "/register/"+c.id, meta(), tok, c, rotation, plan)
+				body := meta()
+				switch r.Intn(4) {
+				case 0:
+					// a read-modify-write client: the members of the response it received are sent back
+					body["client_id"], body["registration_access_token"], body["registration_client_uri"] = c.id, c.regToken, issuer+"/register/"+c.id
+					if len(c.secrets) > 0 {
+						body["client_secret"] = c.secrets[r.Intn(len(c.secrets))]
+					}
+					s.stats["dcr:PUT body carries the client's own credentials under the reserved names"]++
+				case 1:
+					o := pick(r, d.clients)
+					body["client_id"], body["registration_access_token"], body["client_secret"] = o.id, o.regToken, "a-secret-chosen-by-the-client-0123456789"
+					if o.secret != "" {
+						body["client_secret"] = o.secret
+					}
+					s.stats["dcr:PUT body carries other values under the reserved names"]++
+				}
+				code, m := d.do("PUT", "/register/"+c.id, body, tok, c, rotation, plan)
 				if code == 200 {
 					// the previous secret / token must not come back either: keep them in the lists
 					learn(c, m)
